@@ -1437,13 +1437,13 @@ class XonshParser(Parser):
         mark = self._mark()
         _lnum, _col = self._tokenizer.peek().start
         if a := self.token("NUMBER"):
-            return ast.Constant(value=ast.literal_eval(a.string), **self.span(_lnum, _col))
+            return ast.Constant(value=self.literal_eval(a), **self.span(_lnum, _col))
         self._reset(mark)
         if (self.expect("-")) and (a := self.token("NUMBER")):
             return ast.UnaryOp(
                 op=ast.USub(),
                 operand=ast.Constant(
-                    value=ast.literal_eval(a.string),
+                    value=self.literal_eval(a),
                     lineno=a.start[0],
                     col_offset=a.start[1],
                     end_lineno=a.end[0],
@@ -2544,7 +2544,7 @@ class XonshParser(Parser):
             return strings
         self._reset(mark)
         if a := self.token("NUMBER"):
-            return ast.Constant(value=ast.literal_eval(a.string), **self.span(_lnum, _col))
+            return ast.Constant(value=self.literal_eval(a), **self.span(_lnum, _col))
         self._reset(mark)
         if (self.positive_lookahead(self.expect, "(")) and (_tmp_43 := self._tmp_43()):
             return _tmp_43
